@@ -298,8 +298,17 @@ func (l *Lexer) NextToken() token.Token {
 		}
 
 	case rune(0):
-		tok.Literal = ""
-		tok.Type = token.EOF
+		if l.position < len(l.characters) {
+			// A NUL character which is part of the input is just
+			// another character we have no use for: were it taken
+			// for the end of the input everything behind it would be
+			// dropped without a word.
+			tok.Literal = "unexpected NUL character"
+			tok.Type = token.ILLEGAL
+		} else {
+			tok.Literal = ""
+			tok.Type = token.EOF
+		}
 
 	default:
 		if isDigit(l.ch) {
